@@ -118,6 +118,9 @@ let show_bytes = function Ok b -> "ok " ^ render b | Err e -> "err " ^ cls e | P
 let () =
   Array.iter (fun a -> if a = "-prefix" then aligned := false; if a = "-prefix513" then seglimit_fixed := false) Sys.argv;
   iter_lines (fun line ->
+  (* a case too deep for the native stack (only seen with a broken implementation feeding the
+     generator) must not hide the other cases *)
+  try
   match split_ws line with
   | "marshal" :: _ :: s :: _ -> print_endline (show_bytes (marshal (segs_of_expr s)))
   | "marshalpacked" :: _ :: s :: _ -> print_endline (show_bytes (marshal_packed (segs_of_expr s)))
@@ -147,4 +150,5 @@ let () =
     print_endline (match total_size (bytes_of_expr b) with
       | Ok s -> "ok " ^ zstr s | Err e -> "err " ^ cls e | Panic -> "panic")
   | [] -> ()
-  | _ -> print_endline "bad-case")
+  | _ -> print_endline "bad-case"
+  with Stack_overflow -> print_endline "model-stack-overflow")
